@@ -265,6 +265,7 @@ func C04(ctx *core.Ctx, r *core.Report) {
 	c04ReaderExhaustive(ctx, r)
 	c04DefaultSites(ctx, r)
 	c04RowProtocol(ctx, r)
+	c04MembersUntilExhausted(ctx, r)
 	jsonIO := scopeFuncs(ctx, "nodeutil", "json_rdr.go", "json_wtr.go")
 	floatTextExact(ctx, r, jsonIO, 1)
 	definitionModuleOriginal(ctx, r, jsonIO, 4)
@@ -593,4 +594,85 @@ func c19ListEntriesByMatch(ctx *core.Ctx, r *core.Report) {
 		r.Ob("list-entries-by-match", "nodeutil.XmlNode.Child/Nodes", ctx.Pos(s.Pos()), okv, "the list node's elements are "+msg)
 	})
 	r.Floor("list-entries-by-match", n, 1)
+}
+
+// c04MembersUntilExhausted: the iterator over a container's members
+// (containerMetaList.lookAhead) stops looking only when it has found the next
+// member (a store of a value to `next`) or when the member list is used up (nil
+// stored to `main` after hasNextMeta said no). Any other way out — e.g. leaving
+// because a choice has no case selected — ends the iteration early and every
+// later sibling is silently missing from exports and edits.
+func c04MembersUntilExhausted(ctx *core.Ctx, r *core.Report) {
+	f := ctx.Method("node", "containerMetaList", "lookAhead")
+	cml := ctx.Named("node", "containerMetaList")
+	if f == nil || cml == nil {
+		r.Fatalf("anchor node.containerMetaList.lookAhead not found")
+		return
+	}
+	st := cml.Underlying().(*types.Struct)
+	fieldOf := func(v ssa.Value) string {
+		fa, ok := v.(*ssa.FieldAddr)
+		if !ok || core.NamedOf(fa.X.Type()) != cml {
+			return ""
+		}
+		return st.Field(fa.Field).Name()
+	}
+	done := map[*ssa.BasicBlock]bool{}
+	nFound, nExhausted := 0, 0
+	core.Instrs(f, func(b *ssa.BasicBlock, in ssa.Instruction) {
+		s, ok := in.(*ssa.Store)
+		if !ok {
+			return
+		}
+		switch fieldOf(s.Addr) {
+		case "next":
+			if !core.IsNilConst(s.Val) {
+				done[b] = true
+				nFound++
+			}
+		case "main":
+			if core.IsNilConst(s.Val) {
+				// only counts when hasNextMeta() == false holds here
+				for _, pc := range core.PathConds(b) {
+					if c, ok := pc.V.(*ssa.Call); ok && !pc.True {
+						name := ""
+						if cal := core.StaticCallee(c); cal != nil {
+							name = cal.Name()
+						} else if m := core.IfaceMethod(c); m != nil {
+							name = m.Name()
+						}
+						if name == "hasNextMeta" {
+							done[b] = true
+							nExhausted++
+						}
+					}
+				}
+			}
+		}
+	})
+	if nFound == 0 || nExhausted == 0 {
+		r.Fatalf("containerMetaList.lookAhead: the stores that end the search (next = m; main = nil after hasNextMeta) were not found (%d, %d)", nFound, nExhausted)
+		return
+	}
+	for i, ret := range core.Returns(f) {
+		early := false
+		seen := map[*ssa.BasicBlock]bool{}
+		var walk func(b *ssa.BasicBlock)
+		walk = func(b *ssa.BasicBlock) {
+			if seen[b] || done[b] || early {
+				return
+			}
+			seen[b] = true
+			if b == ret.Block() {
+				early = true
+				return
+			}
+			for _, s := range b.Succs {
+				walk(s)
+			}
+		}
+		walk(f.Blocks[0])
+		r.Ob("members-until-exhausted", fmt.Sprintf("node.containerMetaList.lookAhead/return#%d", i+1), ctx.Pos(ret.Pos()), !early,
+			"the search for the next member can end without having found one and without the member list being used up (e.g. when a choice has no case selected): every later sibling of the container is left out of reads, exports and edits")
+	}
 }
